@@ -183,6 +183,6 @@ def rule_H5(ctx) -> None:
 
 
 def run(ctx) -> None:
-    for name, fn in (("H1", rule_H1), ("H2", rule_H2), ("H3", rule_H3), ("H4", rule_H4), ("H5", rule_H5), ("T2", codec.rule_T2)):
+    for name, fn in (("H1", rule_H1), ("H2", rule_H2), ("H3", rule_H3), ("H4", rule_H4), ("H5", rule_H5), ("T2", codec.rule_T2), ("T2b", codec.rule_T2b)):
         ctx.rules_run.append(name)
         fn(ctx)
